@@ -14,7 +14,7 @@ pkgname=$(head -5 $sd/zz_seed_demo_test.go | grep '^package' | awk '{print $2}')
 echo "seed $id: demo package dir = $pkg (package $pkgname)"
 cp $sd/zz_seed_demo_test.go $wt/$pkg/
 tname=$(grep -o 'func Test[A-Za-z0-9_]*' $sd/zz_seed_demo_test.go | head -1 | sed 's/func //')
-res() { (cd $wt && go test -mod=mod -vet=off -count=1 -run "^(TestSeedDemo|$tname)" ./$pkg/ 2>&1 | tail -3 | tr '\n' ' '); }
+res() { (cd $wt && go test -mod=mod -tags verif -vet=off -count=1 -run "^(TestSeedDemo|$tname)" ./$pkg/ 2>&1 | tail -3 | tr '\n' ' '); }
 r1=$(res); echo "  demo without change: $r1"
 git -C $wt apply $sd/patch.diff || { echo "  PATCH DOES NOT APPLY"; git -C /repo worktree remove --force $wt; exit 1; }
 (cd $wt && go build ./... ) && echo "  builds with change: yes" || echo "  builds with change: NO"
